@@ -181,7 +181,15 @@ def check(ctx):
         'computed by moving the operator through the inner product with the'
         ' rules (A+B)*=A*+B*, (AB)*=B*A*, (sA)*=conj(s)A*, (v.A)*=A*.conj(v)'
         ' over real and complex fields.  R2: adjoint.domain == range and '
-        'adjoint.range == domain.  R3: (A*)* acts like A.',
+        'adjoint.range == domain.  R3: (A*)* acts like A.  R8 (evaluated '
+        'tier): the default operators (scaling, identity, multiply incl. '
+        'field domains, inner product, real / imaginary part, complex '
+        'embedding with real, imaginary and general scalars, zero) and '
+        'expressions over them are instantiated on small model spaces with '
+        'symbolic entries, symbolic constant and per-entry weights, real '
+        'and complex dtypes; <A x, y> = <x, A* y> must hold as an identity '
+        '(real parts when exactly one space is real) and the adjoint must '
+        'map range -> domain.',
         ['CPython ast', 'vector-space and inner-product axioms of the free '
          'algebra; conj(conj z) = z; real symbols self-conjugate'],
         ['adjoints that depend on numerical kernels (resize accumulation, '
